@@ -394,7 +394,7 @@ fn check() {
     let stats = Stats::default();
     let interleaved = race_part(&chk, &stats);
     let ex = stats.executions.load(Ordering::Relaxed);
-    if states < 4 || transitions < 100 || ex < 200 || interleaved == 0 {
+    if chk.violation_count() == 0 && (states < 4 || transitions < 100 || ex < 200 || interleaved == 0) {
         machinery(format!("vacuous: states={states} transitions={transitions} executions={ex} interleaved={interleaved}"));
     }
     let coverage = json!({
